@@ -50,7 +50,10 @@ End Maps.
 
 Fixpoint mem (l : list N) (k : N) : bool :=
   match l with [] => false | x :: r => if N.eqb x k then true else mem r k end.
-Definition add (l : list N) (k : N) : list N := if mem l k then l else l ++ [k].
+(* a set is kept in ascending order (Go: a map / sync.Map; the order is only the model's representation) *)
+Fixpoint ins_set (l : list N) (k : N) : list N :=
+  match l with [] => [k] | x :: r => if N.ltb k x then k :: l else x :: ins_set r k end.
+Definition add (l : list N) (k : N) : list N := if mem l k then l else ins_set l k.
 Fixpoint rem (l : list N) (k : N) : list N :=
   match l with [] => [] | x :: r => if N.eqb x k then rem r k else x :: rem r k end.
 
@@ -483,8 +486,10 @@ Definition update_val_op (v : vside) (a role status : N) (stake token : Z) (payl
 (* Which repairs of the validator journal the tree under test carries. *)
 Record fixes := mkFx {
   f_journal : bool;   (* fix fe4c1ff: RemoveValidator / RemoveWithdrawRecords are undone by their entries *)
-  f_create : bool     (* fixes/C09_validator_create_revert.diff: the revert of CreateValidator puts a replaced
-                         deleted record and the index entry back *)
+  f_create : bool;    (* fix 877ecbf: the revert of CreateValidator puts a replaced deleted record and the index
+                         entry back *)
+  f_remove : bool     (* fix 464c034: RemoveValidator refuses a removed record and drops the index entry at once;
+                         deleteValidator does not decrement the statistics for a removed record again *)
 }.
 
 (* The switch [f_journal fx] selects the behaviour of the two validator-journal entries
@@ -500,9 +505,10 @@ Definition remove_validator (fx : fixes) (v : vside) (a : N) : vside * bool :=
   match find (vals v) a with
   | None => (v, false)
   | Some x =>
+    if f_remove fx && v_deleted x then (v, false) else
     let x' := set_v_deleted true x in
     let v1 := v_append (EValDelete a (if f_journal fx then x else x')) v in
-    (decr_stat x (set_vals (set (vals v1) a x') (vindex v1) v1), true)
+    (decr_stat x (set_vals (set (vals v1) a x') (if f_remove fx then rem (vindex v1) a else vindex v1) v1), true)
   end.
 Definition add_withdraw (v : vside) (r : wrec) : vside :=
   v_append (EValAddUBD r) (set_queue (queue v ++ [r]) v).
@@ -605,29 +611,29 @@ Definition v_finalise (v : vside) : vside :=
                       (map fst (j_dirties (vjr v))) v in
   set_vjr j_empty v1.
 
-(* Validator.IsInvalid: Token.Uint64() <= 0 && Stake.Uint64() <= 0 *)
-Definition low64 (z : Z) : N := N.modulo (Z.abs_N z) M64.
-Definition is_invalid (x : validator) : bool := N.eqb (low64 (v_token x)) 0 && N.eqb (low64 (v_stake x)) 0.
+(* Validator.IsInvalid: Token.Sign() <= 0 && Stake.Sign() <= 0 (since fix 0cdbb3b) *)
+Definition is_invalid (x : validator) : bool := Z.leb (v_token x) 0 && Z.leb (v_stake x) 0.
 
 (* IntermediateRoot, validator part *)
-Definition v_flush_one (d : bool) (acc : vside) (a : N) : vside :=
+Definition v_flush_one (fx : fixes) (d : bool) (acc : vside) (a : N) : vside :=
   match find (vals acc) a with
   | None => acc
   | Some x =>
     if v_deleted x || (d && is_invalid x)
     then (* deleteValidator *)
       let x' := set_v_deleted true x in
-      decr_stat x' (set_vtrie (del (vtrie acc) a) (set_vals (set (vals acc) a x') (rem (vindex acc) a) acc))
+      let acc1 := set_vtrie (del (vtrie acc) a) (set_vals (set (vals acc) a x') (rem (vindex acc) a) acc) in
+      if f_remove fx && v_deleted x then acc1 (* RemoveValidator has counted it already *) else decr_stat x' acc1
     else (* updateValidator *)
       set_vtrie (set (vtrie acc) a x) (set_vals (vals acc) (add (vindex acc) a) acc)
   end.
-Definition v_intermediate_root (d : bool) (v : vside) : vside :=
+Definition v_intermediate_root (fx : fixes) (d : bool) (v : vside) : vside :=
   let v1 := v_finalise v in
-  let v2 := set_vdirty [] (fold_left (v_flush_one d) (vdirty v1) v1) in
+  let v2 := set_vdirty [] (fold_left (v_flush_one fx d) (vdirty v1) v1) in
   set_saved (vindex v2) (stat v2) (queue v2) v2.
 (* Commit + state.New + a read of every validator of the index *)
-Definition v_reopen (d : bool) (v : vside) : vside :=
-  let v1 := v_intermediate_root d v in
+Definition v_reopen (fx : fixes) (d : bool) (v : vside) : vside :=
+  let v1 := v_intermediate_root fx d v in
   let fresh := mkVS [] (vtrie v1) [] (sv_index v1) (sv_index v1) (sv_stat v1) (sv_queue v1)
                     (sv_stat v1) false (sv_queue v1) j_empty in
   fold_left (fun acc kv => set_validator (snd kv) acc) (vtrie v1) fresh.
@@ -683,10 +689,10 @@ Definition revert_to_snapshot (fx : fixes) (s : state) (revid : N) : option stat
 (* Finalise = both finalise loops + clearJournalAndRefund (which resets BOTH revision lists) *)
 Definition finalise (d : bool) (s : state) : state :=
   mkState (a_finalise d (sa s)) (v_finalise (sv s)) [] [] (next_rev s).
-Definition intermediate_root (d : bool) (s : state) : state :=
-  mkState (a_intermediate_root d (sa s)) (v_intermediate_root d (sv s)) [] [] (next_rev s).
-Definition reopen (d : bool) (s : state) : state :=
-  mkState (a_reopen d (sa s)) (v_reopen d (sv s)) [] [] 0.
+Definition intermediate_root (fx : fixes) (d : bool) (s : state) : state :=
+  mkState (a_intermediate_root d (sa s)) (v_intermediate_root fx d (sv s)) [] [] (next_rev s).
+Definition reopen (fx : fixes) (d : bool) (s : state) : state :=
+  mkState (a_reopen d (sa s)) (v_reopen fx d (sv s)) [] [] 0.
 
 Inductive op :=
 | OAddBalance (a : N) (v : Z) | OSubBalance (a : N) (v : Z) | OSetBalance (a : N) (v : Z)
@@ -736,8 +742,8 @@ Definition step (fx : fixes) (o : op) (s : state) : option (state * Z) :=
   | OSnapshot => let (s1, id) := snapshot s in Some (s1, Z.of_N id)
   | ORevert id => match revert_to_snapshot fx s id with Some s1 => Some (s1, 0%Z) | None => None end
   | OFinalise d => Some (finalise d s, 0%Z)
-  | OIntermediateRoot d => Some (intermediate_root d s, 0%Z)
-  | OReopen d => Some (reopen d s, 0%Z)
+  | OIntermediateRoot d => Some (intermediate_root fx d s, 0%Z)
+  | OReopen d => Some (reopen fx d s, 0%Z)
   end.
 
 (* run a history; None = some call panicked *)
